@@ -166,8 +166,23 @@ func c09LRULong(c *vf.Ctx) {
 	}
 }
 
+// c09Cid: the k-th CID of the alphabet. All are distinct CIDs, but some share their digest with the neighbour
+// (another codec, or the CIDv0 form): the duplicate filter is about CIDs, not digests.
 func c09Cid(k int) cid.Cid {
-	mh, _ := multihash.Sum([]byte(fmt.Sprint("c09-cid-", k)), multihash.SHA2_256, -1)
+	base, variant := k, 0
+	switch {
+	case k%4 == 3:
+		base, variant = k-1, 1
+	case k%16 == 9:
+		base, variant = k-1, 2
+	}
+	mh, _ := multihash.Sum([]byte(fmt.Sprint("c09-cid-", base)), multihash.SHA2_256, -1)
+	switch variant {
+	case 1:
+		return cid.NewCidV1(cid.DagCBOR, mh)
+	case 2:
+		return cid.NewCidV0(mh)
+	}
 	return cid.NewCidV1(cid.DagJSON, mh)
 }
 
